@@ -375,8 +375,8 @@ def execute_orbit(ctx: RunCtx) -> None:
     orbit = lp.create_orbit(fam, **dict(kw, **{an: amp}))
     # pre-history of the orbit object: the property speaks of every correction that reports success, not only the first
     # one on a fresh analytic seed
-    pre = ds.pick(["none", "loose_1e-5_first", "loose_1e-4_first", "rounded_state_and_period", "recorrected_then_edited", "failed_then_edited"],
-                  "orbit.prehistory", (0.45, 0.17, 0.08, 0.12, 0.1, 0.08))
+    pre = ds.pick(["none", "loose_1e-5_first", "loose_1e-4_first", "rounded_state_and_period", "recorrected_then_edited", "failed_then_edited",
+                   "converged_state_stale_period"], "orbit.prehistory", (0.4, 0.15, 0.07, 0.12, 0.1, 0.08, 0.08))
     if pre.startswith("loose"):
         try:
             orbit.correct(orbit.correction_options.merge(**{"base.convergence.tol": 1e-5 if "1e-5" in pre else 1e-4, "base.convergence.max_delta": 0.5}))
@@ -388,6 +388,16 @@ def execute_orbit(ctx: RunCtx) -> None:
             o2.correct()
             orbit = type(o2)(lp, initial_state=np.round(np.array(o2.initial_state, float), 7))
             orbit.period = round(float(o2.period), 7)
+        except Exception:
+            pre = "none"
+    elif pre == "converged_state_stale_period":
+        # an object built from a converged state that carries a period belonging to another orbit (what continuation does with
+        # every new member, and what `orbit.period = guess; orbit.correct()` does): the correction has nothing to iterate on
+        try:
+            o2 = lp.create_orbit(fam, **dict(kw, **{an: amp}))
+            o2.correct()
+            orbit = type(o2)(lp, initial_state=np.array(o2.initial_state, float))
+            orbit.period = float(o2.period) * 1.07
         except Exception:
             pre = "none"
     elif pre in ("recorrected_then_edited", "failed_then_edited"):
